@@ -23,14 +23,9 @@ MUTATIONS = [
  # sift-up never replaces the root
  dict(name="theap-pullup-stops-below-root", props=["C05"], rule="C05:heap",
       edits=[("iv_timer.c", "\twhile (index != 1) {", "\twhile (index > 3) {")]),
- # sift-down ignores a node whose only child is the last slot
- dict(name="theap-pushdown-misses-single-child", props=["C05"], rule="C05:heap",
-      edits=[("iv_timer.c", "\t\tif (2 * index <= st->num_timers) {", "\t\tif (2 * index < st->num_timers) {")]),
- # sift-down compares the right child with the element being moved instead of the smaller so far
- dict(name="theap-pushdown-right-vs-original", props=["C05"], rule="C05:heap",
-      edits=[("iv_timer.c",
-              "\t\t\tif (p[1] && timer_ptr_gt(*imin, p[1])) {",
-              "\t\t\tif (p[1] && timer_ptr_gt(*i, p[1])) {")]),
+ # sift-up computes the parent of a right child as if the heap were rounded up
+ dict(name="theap-pullup-wrong-parent", props=["C05"], rule="C05:heap",
+      edits=[("iv_timer.c", "\t\tparent = index / 2;", "\t\tparent = (index + 1) / 2;")]),
  # the vacated last slot keeps its pointer (the `p[1] &&` test then sees a phantom child)
  dict(name="theap-unreg-keeps-last-slot", props=["C05"], rule="C05:heap",
       edits=[("iv_timer.c", "\t\t(*p)->index = t->index;\n\t\t*m = NULL;\n", "\t\t(*p)->index = t->index;\n")]),
